@@ -17,7 +17,7 @@ import (
 
 const (
 	property = "C06"
-	rule     = "random DB programs (writes, flushes, automatic/seek/manual compactions on sub-ranges, trivial moves, transaction commits, reopen) x option lattice x 4 comparers; after EVERY installed version (commit hook) every live table is re-read and the C06 conditions are checked: file exists with recorded size, strictly ordered, recorded smallest/largest = first/last, level 0 newest first, deeper levels ordered and disjoint, shallower newer than deeper per user key; for EVERY table compaction the inputs must be closed on the version it was picked on (every next-level table overlapping the user-key hull of the source inputs is an input; at level 0 every level-0 table overlapping it too); non-trivial = a version with >=3 populated levels was installed; plus twin scenarios (writes, reopen, range compactions; run fault-free and with transient table faults armed before each range compaction; table contents per level, cuts and a full scan must agree; the builder of a whole-level compaction driven with and without faults must write the same tables) - a twin is non-trivial when an injected fault fired and the final version has >=2 levels; plus the LOOPS: directed scenarios (tiny CompactionTableSize / CompactionSourceLimitFactor / CompactionTotalSize, values far above the table size, 4 comparers) of write rounds each followed by CompactRange and/or a wait for quiescence under a watchdog - CompactRange must return within 20 s, afterwards every table overlapping the range must sit in ONE level >= 1 (judged on the version the retry loop ended with), background compaction must go idle (needCompaction false) within 20 s, a full scan must equal the map after each - a loop scenario is non-trivial when it ran a range compaction and reached a quiescent point; the same two oracles run after every CompactRange of the generated programs; plus DEEP-TREE scenarios for retried compactions (dbh.RunDeep): three or more populated levels built with tiny table/level sizes, waves of Deletes whose markers sit above values stored in several tables two or more levels further down (the last wave stays in level 0), then the builder of every populated level driven failure-free and attempt by attempt under transient table faults placed with the failure-free run's write/sync/create counts (same tables required; KRetry cases with the cursors compaction.restore has to rewind), then ONE transient table write/sync/create fault armed for a real DB.CompactRange, healing, settling: every deleted key not-found, every other key at its last value, a full scan equal to the oracle, a snapshot taken after the deletions unchanged - a deep-tree scenario is non-trivial when a failed driven attempt left base-level cursors beyond its snapshot's and the real compaction's fault fired"
+	rule     = "random DB programs (writes, flushes, automatic/seek/manual compactions on sub-ranges, trivial moves, transaction commits, reopen) x option lattice x 5 comparers (4 injective; every fifth program under the non-injective ASCII-case-insensitive comparer: several spellings per user key, oracle keyed by equivalence class, bloom filter off); after EVERY installed version (commit hook) every live table is re-read and the C06 conditions are checked: file exists with recorded size, strictly ordered, recorded smallest/largest = first/last, level 0 newest first, deeper levels ordered and disjoint, shallower newer than deeper per user key; for EVERY table compaction the inputs must be closed on the version it was picked on (every next-level table overlapping the user-key hull of the source inputs is an input; at level 0 every level-0 table overlapping it too); non-trivial = a version with >=3 populated levels was installed; plus twin scenarios (writes, reopen, range compactions; run fault-free and with transient table faults armed before each range compaction; table contents per level, cuts and a full scan must agree; the builder of a whole-level compaction driven with and without faults must write the same tables) - a twin is non-trivial when an injected fault fired and the final version has >=2 levels; plus the LOOPS: directed scenarios (tiny CompactionTableSize / CompactionSourceLimitFactor / CompactionTotalSize, values far above the table size, 4 comparers) of write rounds each followed by CompactRange and/or a wait for quiescence under a watchdog - CompactRange must return within 20 s, afterwards every table overlapping the range must sit in ONE level >= 1 (judged on the version the retry loop ended with), background compaction must go idle (needCompaction false) within 20 s, a full scan must equal the map after each - a loop scenario is non-trivial when it ran a range compaction and reached a quiescent point; the same two oracles run after every CompactRange of the generated programs; plus deep-tree retry scenarios (3+ levels, deletion markers over values in several deeper tables; every populated level driven failure-free and under faults placed by the failure-free run's own operation counts; restore() cursors compared with the model after every failed attempt)"
 	header   = "From GL Require Import Corr.C06Run."
 	checkWf  = true
 )
@@ -178,6 +178,12 @@ func main() {
 				cfg := dbh.RandomCfg(r)
 				tweakCfg(r, &cfg)
 				pool := dbh.GenPool(r, r.Range(8, 60), r.Chance(1, 8))
+				if dbh.ClassJob(j.i) {
+					// non-injective comparer (dbh/cmpx.go): several spellings per user key, oracle keyed by class
+					dbh.UseClassCmp(&cfg)
+					pool = dbh.SpellPool(r, pool)
+					res.Count("programs_casefold_comparer", 1)
+				}
 				p := dbh.GenProgram(r, cfg, pool, r.Range(nops/3, nops), w)
 				p.Seed = a.Seed
 				collectWf := j.i%2 == 0
